@@ -310,6 +310,9 @@ def replay(rp):
     if "anchor" in rp:
         r = job((rp["setting"], [U.FORMS[0]], [U.KCAL_BASES[0]]))
         return r["v"]
+    if "representation" in rp:
+        r = job((rp["setting"], [U.FORMS[0]], [U.KCAL_BASES[0]]))
+        return [v for v in r["v"] if v["replay"].get("representation") == rp["representation"]] or r["v"]
     src = mk(Food, rp["labels"], rp["shape"])
     kb, fb, pb = [U.split(l)[0] for l in rp["labels"]]
     try:
@@ -325,4 +328,15 @@ def replay(rp):
     want = [rp["to"][0] + form, rp["to"][1] + form, rp["to"][2] + form]
     if out.units != want or [out.kcals_units, out.fat_units, out.protein_units] != want:
         vs.append(violation("form_preserved", {"setting": rp["setting"]}, "labels %s expected %s" % (out.units, want), rp))
+    shape = rp.get("shape")
+    if "via" not in rp and (out.is_list_monthly() != (shape is not None) or (shape is not None and len(np.atleast_1d(out.kcals)) != shape)):
+        vs.append(violation("shape_preserved", {"setting": rp["setting"]}, "%s -> %s: shape changed" % (rp["labels"], rp["to"]), rp))
+    if "via" not in rp:
+        try:
+            back = out.in_units(kb, fb, pb)
+            for g, b, nm in zip(vals_of(back), vals_of(src), ("kcals", "fat", "protein")):
+                if g.shape != b.shape or not np.allclose(g, b, rtol=1e-9, atol=0):
+                    vs.append(violation("round_trip_" + nm, {"setting": rp["setting"]}, "%s -> %s -> back: %r != %r" % (rp["labels"], rp["to"], g.tolist(), b.tolist()), rp))
+        except AssertionError as e:
+            vs.append(violation("round_trip_refused", {"setting": rp["setting"]}, "%s -> %s -> back refused %r" % (rp["labels"], rp["to"], e), rp))
     return vs
